@@ -136,7 +136,7 @@ Proof.
   cbn [sv_limits sv_rev].
   change (conc_limits (top :: sc :: rest)) with (length (conc_rev (sc :: rest)) :: conc_limits (sc :: rest)).
   change (conc_rev (top :: sc :: rest)) with (rev top ++ conc_rev (sc :: rest)).
-  rewrite pop_loop_app. destruct (cb_all cb (rev top) s); reflexivity.
+  cbv iota. rewrite pop_loop_app. destruct (cb_all cb (rev top) s); reflexivity.
 Qed.
 
 Lemma pop_scope_base : forall {S} (cb : T -> S -> option S) top s,
